@@ -645,7 +645,7 @@ def runSection (r : Report) (s : Section) : Report := Id.run do
       -- engine.bindRoutes(router) / Server.Start() = handleError(engine.start(router)): bindRoutes, then listen
       -- model: what the engine reads through its (possibly aliasing) groups now; monitor: the routes as the
       -- callers wrote them with the options applied to a copy
-      let res := bindGroups st.pr.core st.api.groupRegs
+      let res := bindGroupsM st.pr.core st.api.groupRegs
       let err := res.2
       let tbl0 := st.tbl
       let specRegs := st.groups.flatMap Group.regs
